@@ -18,6 +18,7 @@ images of sampled histories (PARTIAL).
 import GoNfsd.Props.C04
 import GoNfsd.Lemmas.BlockMap
 import GoNfsd.Lemmas.ShrinkTree
+import GoNfsd.Lemmas.InoOps
 
 namespace GoNfsd.Props.C05
 open GoNfsd.Model.Fsck GoNfsd.Gen.Consts GoNfsd.Gen.Super GoNfsd.Props.C04
@@ -299,5 +300,52 @@ theorem write_anything_then_delete_frees_everything (allocs bns : List Nat) (hd 
     rcases (hf b).1 hbm with h | ⟨_, q, hq, _, hpq⟩
     · rw [hfreed0] at h; cases h
     · exact ⟨q, hq, hpq⟩
+
+/-! ### the bookkeeping invariant: nothing is mapped beyond what size and ShrinkSize account for -/
+
+open GoNfsd.Model.BlockMap in
+/-- NO BLOCK BEYOND THE BOOKKEEPING, EVER.  From the empty file, after ANY sequence of WRITEs
+    (complete, short — the allocator may run dry at any block, in the middle of an index-block
+    chain — or failing), hole-filling READs, SETATTRs of the size (growing, shrinking, to unaligned
+    sizes) and finishings of a pending shrink, with any allocator that hands out no block twice:
+      * the pointer tree is well-formed (no block with two owners, the allocator's blocks unused),
+      * and NOTHING is mapped from block max(ShrinkSize, ⌈size/4096⌉) on —
+    which is exactly the hypothesis under which `truncation_frees_exactly_what_it_unmaps`
+    guarantees that a later truncation or removal frees every block.  (This is the invariant
+    that the defects fixed in 9627749 and fe9df90 broke; the transliterated model contains both
+    repairs, and the `blockmap` correspondence ties it to the code.) -/
+theorem nothing_mapped_beyond_the_bookkeeping (allocs : List Nat) (hd : DistinctNZ allocs)
+    (ops : List IOp) (hops : ∀ op ∈ ops, op.ok) :
+    InoOK (inoRun ({ st := emptyStore, allocs := allocs }, emptyIno) ops).1
+      (inoRun ({ st := emptyStore, allocs := allocs }, emptyIno) ops).2 :=
+  inoRun_ok _ ops (InoOK_empty allocs hd) hops
+
+open GoNfsd.Model.BlockMap in
+/-- … and therefore: after any such history, removing the file (the run of `Shrink` from its
+    bookkeeping bound down to 0) leaves the file pointing to nothing and has freed every block it
+    owned. -/
+theorem any_history_then_delete_frees_everything (allocs : List Nat) (hd : DistinctNZ allocs)
+    (ops : List IOp) (hops : ∀ op ∈ ops, op.ok) :
+    let f := inoRun ({ st := emptyStore, allocs := allocs }, emptyIno) ops
+    let r := shrinkTo f.1 f.2.blks 0 (bound f.2)
+    (∀ q, q.valid → ptr r.1.st r.2 q = 0) ∧
+    (∀ b, b ≠ 0 → (∃ q, q.valid ∧ ptr f.1.st f.2.blks q = b) → b ∈ r.1.freed) := by
+  intro f r
+  have hok := nothing_mapped_beyond_the_bookkeeping allocs hd ops hops
+  obtain ⟨_, _, hp, hf, _⟩ := shrinkTo_ok 0 (bound f.2) f.1 f.2.blks hok.wf.len hok.wf.inj hok.le hok.empty
+  refine ⟨fun q hq => by rw [hp q hq]; simp, ?_⟩
+  intro b hb0 ⟨q, hq, hpq⟩
+  exact (hf b).2 (Or.inr ⟨hb0, q, hq, Nat.zero_le _, hpq⟩)
+
+open GoNfsd.Model.BlockMap in
+/-- Non-vacuity: a history with writes into the direct and indirect range, a hole-filling read,
+    an unaligned truncation that frees five blocks, a write cut short by the allocator and a
+    regrowth meets the hypotheses and ends with blocks mapped. -/
+example :
+    let ops : List IOp := [.write 0 3, .write 8 3, .read 1, .resize 5000, .write 9 2, .finish, .resize 50000]
+    let f := inoRun ({ st := emptyStore, allocs := [100, 101, 102, 103, 104, 105, 106, 107, 108, 0, 109, 110] }, emptyIno) ops
+    (f.2.size, f.2.shrink, f.2.blks, f.1.allocs, f.1.freed) =
+      (50000, 13, [100, 101, 0, 0, 0, 0, 0, 0, 107, 0], [109, 110], [102, 103, 104, 105, 106]) := by
+  decide
 
 end GoNfsd.Props.C05
